@@ -444,8 +444,11 @@ class SArr:
     # boolean masks ---------------------------------------------------
     def _mask_get(self, mask):
         """x[mask]: elements where mask is true, in order (strictly increasing enumeration)."""
+        eng().prove("safety:mask-length", mask.n == self.n, "boolean index length must match")
         idx = mask.nonzero()[0]
-        return self._gather(idx, checked=False)
+        out = self._gather(idx, checked=False)
+        out._gathered_from = (self, mask)
+        return out
 
     def _mask_set(self, mask, value):
         eng().prove("safety:mask-length", mask.n == self.n, "boolean index length must match")
@@ -475,6 +478,8 @@ class SArr:
         src = self.snapshot()
         isrc = idx
         out = SArr.from_fn(self.kind, idx.n, lambda i: src(_as_int(isrc, i)))
+        if hasattr(idx, "_rank"):
+            out._rank = idx._rank
         return out
 
     def _scatter(self, idx, value):
@@ -616,6 +621,7 @@ class SArr:
         e.assume(z3.ForAll([q], z3.Implies(z3.And(q >= 0, q < self.n, zbool(k.wrap(a(q)))),
                  z3.And(rank(q) >= 0, rank(q) < cnt, I[rank(q)] == q)), patterns=[rank(q)]))
         idx._nz_of = (self, rank)
+        idx._rank = rank
         return (idx,)
 
     def min(self):
@@ -651,6 +657,7 @@ class SArr:
         e.assume(z3.ForAll([q, r], z3.Implies(z3.And(q >= 0, q <= r, r < self.n), zbool(mk(a(P[q])) <= mk(a(P[r])))),
                            patterns=[z3.MultiPattern(P[q], P[r])]))
         p._perm_inv = inv
+        e.ghost["last_argsort"] = p
         return p
 
 
